@@ -14,7 +14,7 @@ C. per-season order: with non-negative daily growing degrees the per-season valu
 D. `np.mean` (`gddNpMean`) is the arithmetic mean, preserves pointwise order; hence the converted
    calendar keeps the order of the calendar-day indexes for `sum_fun = 'mean'`
    (`prepareGdd_mean_mono`) and for one season with `'median'`.  (Pointwise monotonicity of the
-   median of more than one season is NOT proved here.)
+   median of more than one season is proved in `Proofs/PrepareGddOrder.lean`, not here.)
 E. single season: converted value = cumulative growing degrees at the calendar-day index
    (`prepareGdd_single_season`).
 F. the finding: `YldForm`, `FloweringCD` are not converted (`yldForm_unchanged`),
